@@ -638,7 +638,7 @@ pub fn check_slot<F: Family>(s: &Slot<F>, env: &Env<F>, counts: bool, op: &Op, g
         let (_, _, min_off) = expected_layout::<F>(a.class, a.nelems);
         let psize = b.size.saturating_sub(off);
         let (need, _, foff) = expected_layout::<F>(a.class, a.nelems);
-        if off < std::mem::size_of::<usize>() || off > b.size || psize < need - foff {
+        if off < triomphe_verif_rt::sim::COUNTER_WIDTH.load(std::sync::atomic::Ordering::Relaxed) || off > b.size || psize < need - foff {
             violation(
                 "addr:deref",
                 format!("{}: Deref yields block+{:#x} of a {}-byte block: no room for the counter before it or for the payload after it (expected offset {:#x})", what(), off, b.size, min_off),
